@@ -41,6 +41,16 @@ def corpus():
         "A|T=o;n|" + _tables("T=o;n") + "|-|-|a 1n 0;d 1n 0;s 1n 0;a 1n 1",
         # conditional adapters: first path fails, longer one found
         "A|T=c0:;c1:;c2:|" + _tables("T=c0:;c1:;c2:") + "|0:0:2:0:n;1:0:1:0:n;2:1:2:1:n|0@-=n|a 0 2;d 0 2;s 0 2;t S 1 1 0 2;t A 1 0 0 2",
+        # Lean witness collideCfg (F16): A.P and B.P share the bucket 'c17types.T0'
+        "A|T=c0:;c0:;c2:;c3:|" + _tables("T=c0:;c0:;c2:;c3:") + "|0:0:3:0:n;1:1:2:0:n|-|a 0 2;a 1 2",
+        # Lean witness twoCfg / firstCallOnly: a factory answering by call ordinal defeats completeness
+        "A|T=c0:;c1:|" + _tables("T=c0:;c1:") + "|0:0:1:0:n;1:0:1:0:n|0@-=n;#1=n|a 0 1;s 0 1",
+        # Lean witness distCfg: the Sub offer (distance 0) beats the Base offer (distance 1) registered first
+        "A|T=c0:;c1:0;c2:|" + _tables("T=c0:;c1:0;c2:") + "|0:0:2:0:n;1:1:2:1:n|-|a 1 2;m 1 0;m 1 1",
+        # Lean witness chainCfg with refusing [0] / refusing [0, 2]
+        "A|T=c0:;c1:;c2:;c3:0|" + _tables("T=c0:;c1:;c2:;c3:0") + "|0:0:2:0:n;1:0:1:0:n;2:1:2:1:n;3:2:0:2:n|0@-=n|a 3 2;d 3 2",
+        "A|T=c0:;c1:;c2:;c3:0|" + _tables("T=c0:;c1:;c2:;c3:0") +
+        "|0:0:2:0:n;1:0:1:0:n;2:1:2:1:n;3:2:0:2:n|0@-=n;2@1=n|a 3 2;d 3 2;t S 2 1 3 2;t A 1 1 3 2",
         # cycle
         "A|T=c0:;c1:;c2:|" + _tables("T=c0:;c1:;c2:") + "|0:0:1:0:n;1:1:0:1:n|-|a 0 2;d 0 2",
     ]
@@ -70,9 +80,9 @@ def generate(rng, tier):
         n, nso = 30000, 5000
     for i in range(n):
         yield L.random_case(rng)
-    for i in range(n // 3):
+    for i in range(n):
         yield L.random_chain_case(rng)
-    for i in range(n // 3):
+    for i in range(n // 2):
         yield L.random_specific_case(rng)
     for i in range(n // 10):
         yield L.random_case(rng, ordinal=True)
@@ -350,8 +360,13 @@ def _oracle_adapt(kind, q, hier, src, src_type, target, info, ctx, obs, determin
                             from traits.adaptation.api import AdaptationManager as AM
                             d1 = AM.mro_distance_to_protocol(src_type, F)
                             d2 = AM.mro_distance_to_protocol(src_type, F2)
-                            sig = ("specificity:equal-mro-distance-subclass-loses" if d1 == d2
-                                   else "specificity:base-preferred")
+                            if d1 != d2:
+                                sig = "specificity:base-preferred"
+                            elif _weak_order_at(src_type, info):
+                                # hypothesis of C17_specific_subclass_partial holds: the subclass must win
+                                sig = "specificity:subclass-loses-under-weak-order"
+                            else:
+                                sig = "specificity:intransitive-comparison"
                             hits.append(_hit(sig + sfx, "offer o%d registered for %s was used although o%d registered for its "
                                              "strict subclass %s also adapts in one step (MRO distances %s / %s)" % (
                                                  walk[0], F.__name__, c[0], F2.__name__, d1, d2), query=q))
@@ -365,6 +380,30 @@ def _oracle_adapt(kind, q, hier, src, src_type, target, info, ctx, obs, determin
             hits.append(_hit("incomplete" + sfx, "adapt found nothing but %d successful chain(s) exist, e.g. %s" % (
                 len(good), list(good[0])), query=q))
     return hits
+
+
+def _weak_order_at(src_type, info):
+    """Is the comparison of _adapt (distance, then strict issubclass of from_protocols) a strict weak
+    order on the offers applicable to src_type?  (`WeakOn` of the Lean development, on the real classes.)"""
+    from traits.adaptation.api import AdaptationManager as AM
+    es = []
+    for i in sorted(info):
+        F = info[i][0]
+        d = AM.mro_distance_to_protocol(src_type, F)
+        if d is not None and not any(d == d0 and F is F0 for d0, F0 in es):
+            es.append((d, F))
+
+    def lt(a, b):
+        return a[0] < b[0] or (a[0] == b[0] and a[1] is not b[1] and issubclass(a[1], b[1]))
+    for a in es:
+        for b in es:
+            if lt(a, b):
+                if lt(b, a):
+                    return False
+                for c in es:
+                    if not (lt(a, c) or lt(c, b)):
+                        return False
+    return True
 
 
 def _oracle_trait(cls, mode, an, src, target, exc, x, x_, ref, ref_exc, trait_log, ctx):
